@@ -103,8 +103,11 @@ pub struct Log {
     pub cur_call: usize,
     pub n_valid_queries: u64,
     pub n_dist_queries: u64,
+    pub n_interp_queries: u64,
     pub u32_draws: u64,
     pub t0: Option<std::time::Instant>,
+    /// id-1 -> a clone of the interned state (for the direct oracles)
+    pub objs: Vec<Box<dyn Any>>,
 }
 
 thread_local! {
@@ -137,9 +140,25 @@ impl Log {
     }
 }
 
-pub fn intern<S: Key>(s: &S) -> u32 {
+pub fn intern<S: Key + Clone + 'static>(s: &S) -> u32 {
     let k = s.key();
-    with(|l| l.intern_key(k))
+    with(|l| {
+        let n = l.keys.len();
+        let id = l.intern_key(k);
+        if l.keys.len() > n {
+            l.objs.push(Box::new(s.clone()));
+        }
+        id
+    })
+}
+
+impl Log {
+    pub fn state_of<S: Clone + 'static>(&self, id: u32) -> Option<S> {
+        self.objs
+            .get(id as usize - 1)
+            .and_then(|b| b.downcast_ref::<S>())
+            .cloned()
+    }
 }
 
 pub fn log_dist(a: u32, b: u32, bits: u64) {
@@ -152,7 +171,19 @@ pub fn log_dist(a: u32, b: u32, bits: u64) {
         }
     })
 }
+/// more interpolation queries than this within one case = a motion check that would (practically)
+/// never finish; the case is aborted with a recognisable panic
+pub const RUNAWAY_LIMIT: u64 = 3_000_000;
+
 pub fn log_interp(a: u32, b: u32, t: u64, c: u32) {
+    let runaway = with(|l| {
+        l.n_interp_queries += 1;
+        l.n_interp_queries > RUNAWAY_LIMIT
+    });
+    if runaway {
+        with(|l| l.n_interp_queries = 0);
+        panic!("oxh-runaway: more than {RUNAWAY_LIMIT} interpolation queries in one case");
+    }
     with(|l| {
         if let Some(old) = l.interp.insert((a, b, t), c) {
             if old != c {
